@@ -644,6 +644,11 @@ func init() {
 		X.addPC(fmt.Sprintf("(and (<= (str.len %s) %d) (str.in_re %s (re.* (re.range \"\\u{0}\" \"\\u{ff}\"))))", c, maxLen, c))
 		return symStr{c}
 	}
+	H["nondetAtom"] = func(fr *frame, a []value) value {
+		c := X.fresh(strArg(a[0]), "Int")
+		X.addPC(fmt.Sprintf("(and (>= %s 0) (<= %s 999999))", c, c))
+		return symAtom{c}
+	}
 	H["nondetChoice"] = func(fr *frame, a []value) value {
 		return X.choose(strArg(a[0]), int(asInt64(a[1])))
 	}
@@ -655,6 +660,9 @@ func init() {
 		return nil
 	}
 	H["verifAssert"] = func(fr *frame, a []value) value {
+		if X.cfg.labels != nil && !X.cfg.labels.MatchString(strArg(a[0])) {
+			return nil
+		}
 		X.assert(strArg(a[0]), a[1])
 		return nil
 	}
